@@ -53,7 +53,7 @@ func genC09(t *rapid.T) *c09Scenario {
 			s.Methods = append(s.Methods, rapid.IntRange(0, 4).Draw(t, "method"))
 		}
 		for k := rapid.IntRange(1, 3).Draw(t, "np"); k > 0; k-- {
-			s.PayLens = append(s.PayLens, rapid.SampledFrom([]int{0, 1, 10, 80, 400, 505, 520, 1000, 5000}).Draw(t, "paylen"))
+			s.PayLens = append(s.PayLens, rapid.SampledFrom([]int{0, 1, 10, 80, 400, 505, 520, 1000, 5000, -510, -511, -512, -4094, -4095, -4096, -4097, -8192}).Draw(t, "paylen")) // negative: -(total length of the line), for Raw
 		}
 		sc.Senders = append(sc.Senders, s)
 	}
@@ -77,6 +77,14 @@ var c09Units = []string{"%", "%s", "100% ", "%d%%", "\\", "\u00e9"}
 func c09Line(g, i int, s *c09Sender) (wire string, call func(c *client.Conn)) {
 	pl := s.PayLens[i%len(s.PayLens)]
 	method := s.Methods[i%len(s.Methods)]
+	if pl < 0 {
+		// a line of exactly -pl bytes (sizes of the protocol limit and of typical I/O buffers)
+		if method == 0 {
+			pl = -pl - len(fmt.Sprintf("S%d.%d raw ", g, i))
+		} else {
+			pl = 400
+		}
+	}
 	if pl > 400 && method != 0 {
 		pl = 400 // the splitting methods would cut a longer text (C11's subject); Raw takes any length
 	}
